@@ -461,6 +461,8 @@ class Engine:
                 return z3.Length(v) > 0
         if isinstance(v, OptV):
             return speclib_and(self.b_not(v.is_none), self.truth(ctx, v.val))
+        if isinstance(v, V.SymClosure):
+            return v.tag != 0
         if isinstance(v, PyList):
             return len(v.items) > 0
         if isinstance(v, tuple):
@@ -491,6 +493,8 @@ class Engine:
         raise EngineLimit("truthiness of %r" % (v,))
 
     def py_eq(self, ctx: Ctx, a, b) -> Any:
+        if isinstance(a, V.SymClosure) or isinstance(b, V.SymClosure):
+            return self.py_is(ctx, a, b)
         if isinstance(a, OptV) or isinstance(b, OptV):
             if not isinstance(a, OptV):
                 a, b = b, a
@@ -774,7 +778,12 @@ class Engine:
                 if inst is not None:
                     for k, v in inst.items():
                         if k.startswith("self."):
+                            if isinstance(v, V.Kind):
+                                v = ctx.fresh_kind(k, v)
+                                self.assume_wellformed(ctx, v)
                             self_obj.fields[k[5:]] = v
+                if self_obj.fields is not None and not is_init:
+                    V.bind_owner(self_obj)
                 args[p.arg] = self_obj
                 continue
             args[p.arg] = self.make_param(ctx, finfo, contract, p.arg, p.annotation, inst)
@@ -782,6 +791,10 @@ class Engine:
             raise EngineLimit("*args/**kwargs in a function under contract")
         ns = NS(**{("self" if (self_obj is not None and k == all_args[0].arg) else k): v for k, v in args.items()})
         ns.__dict__["ctx"] = ctx
+        if self_obj is not None and not is_init:
+            from . import mutstate
+
+            ns.__dict__["old"] = mutstate.snapshot(self_obj)  # pre-state of a mutable receiver
         if self_obj is not None and not is_init:
             for label, inv in self.class_invariants(ctx, self_obj):
                 ctx.assume(lift_bool(inv))
@@ -955,6 +968,12 @@ class Engine:
             x = z3.FreshConst(cur.elem_sort, "x")
             new = z3.Lambda([x], z3.Or(z3.Select(cur.term, x), z3.Select(other.term, x)))
             cur.term = new
+            return
+        if isinstance(st.op, ast.Add) and isinstance(cur, PyList) and isinstance(rhs, SymSeq):
+            # list += symbolic list: the (function-allocated) list becomes a symbolic sequence
+            if not cur.fresh:
+                ctx.oblige("%s/frame#aliased-mutation" % short(ctx.func), False, kind="frame")
+            self.assign(ctx, st.target, self.lib.seq_concat(ctx, cur, rhs), env)
             return
         if isinstance(st.op, ast.Add) and isinstance(cur, PyList):
             if not cur.fresh:
@@ -1337,6 +1356,11 @@ class Engine:
         return self.lib.order(ctx, op, a, b)
 
     def py_is(self, ctx, a, b):
+        if isinstance(a, V.SymClosure) or isinstance(b, V.SymClosure):
+            c, other = (a, b) if isinstance(a, V.SymClosure) else (b, a)
+            if other is None:
+                return c.tag == 0
+            raise EngineLimit("`is` between a symbolic closure and %r" % (other,))
         if isinstance(a, OptV) or isinstance(b, OptV):
             o, other = (a, b) if isinstance(a, OptV) else (b, a)
             if other is None:
@@ -1535,6 +1559,10 @@ class Engine:
             if set(vals) != set(callee.fields):
                 raise PyRaise(ExcVal(V.ExtClass("TypeError")))
             return RecV(callee.name, {f: vals[f] for f in callee.fields})
+        if isinstance(callee, V.SymClosure):
+            from . import mutstate
+
+            return mutstate.call_symclosure(self, ctx, callee, args, kwargs)
         if isinstance(callee, V.Partial):
             kw = dict(callee.kwargs)
             kw.update(kwargs)
@@ -1679,6 +1707,10 @@ class Engine:
             nsd["self" if (finfo.cls is not None and not finfo.is_static and params and k == params[0]) else k] = v
         ns = NS(**nsd)
         ns.__dict__["ctx"] = ctx
+        if isinstance(nsd.get("self"), Obj) and nsd["self"].fields is not None and finfo.name != "__init__":
+            from . import mutstate
+
+            ns.__dict__["old"] = mutstate.snapshot(nsd["self"])  # pre-state of a materialised (mutable) receiver
         callee = short(contract.qualname)
         for label, c in self.run_spec(ctx, lambda: contract.clauses("pre", ns)):
             ctx.oblige("%s/pre#%s#%s" % (short(ctx.func), callee, label), lift_bool(c), kind="pre")
@@ -1707,6 +1739,8 @@ class Engine:
         if is_init:
             selfv = ns.self
             self.havoc_init_fields(ctx, selfv, finfo.cls)
+            if isinstance(selfv, Obj) and selfv.fields is not None:
+                V.bind_owner(selfv)
         else:
             if contract.returns is not None:
                 result = ctx.fresh_kind("ret!" + finfo.name, contract.returns)
@@ -1716,6 +1750,19 @@ class Engine:
                     k, _ = self.field_kind(nsd["self"].cls, fname)
                     if k is not None:
                         nsd["self"].fields[fname] = ctx.fresh_kind("havoc." + fname, k)
+                V.bind_owner(nsd["self"])
+            hv = getattr(contract.impl, "havoc", None)
+            if hv is not None:
+                # fields of materialised objects reachable from the arguments that the callee may assign
+                for hobj, fname in self.run_spec(ctx, hv, ns):
+                    if not isinstance(hobj, Obj) or hobj.fields is None:
+                        raise EngineLimit("havoc of a field of a non-materialised object")
+                    k, _ = self.field_kind(hobj.cls, fname)
+                    if k is None:
+                        raise EngineLimit("no field kind declared for %s.%s" % (hobj.cls.qualname, fname))
+                    hobj.fields[fname] = ctx.fresh_kind("havoc." + fname, k)
+                    self.assume_wellformed(ctx, hobj.fields[fname])
+                    V.bind_owner(hobj)
         ns.__dict__["result"] = result
         for label, c in self.run_spec(ctx, lambda: contract.clauses("post", ns)):
             ctx.assume(lift_bool(c))
